@@ -73,7 +73,7 @@ Definition pat_out (x : pres) : Prop :=
 Lemma star_nonparam : nonparam "'*'".
 Proof. exists "'"%char, "*"%string. split; [left; reflexivity|reflexivity]. Qed.
 
-Lemma leaf_render e : ParserShape.is_leaf e = true -> exists x, render_param o2 e = Ret x /\ leaf_out x /\ (is_pattern e = true -> pat_out x).
+Lemma leaf_render e : Shape.is_leaf e = true -> exists x, render_param o2 e = Ret x /\ leaf_out x /\ (is_pattern e = true -> pat_out x).
 Proof.
   destruct e as [l op r bo fu]. intros H.
   assert (Hr : r = VNil) by (destruct op, l, r; cbn in H; try discriminate; reflexivity). subst r.
@@ -192,7 +192,7 @@ Lemma serp_list_ret : forall l acc ps, forallb is_plain l = true -> is_ret (serp
 Proof.
   induction l as [|x xs IH]; intros acc ps H; cbn [serp_list]; [eexists; reflexivity|].
   cbn [forallb] in H. apply andb_true_iff in H. destruct H as [Hx Hxs].
-  assert (Hl : ParserShape.is_leaf x = true) by (destruct x as [l op r ? ?]; destruct op, l, r; cbn in Hx |- *; try discriminate; reflexivity).
+  assert (Hl : Shape.is_leaf x = true) by (destruct x as [l op r ? ?]; destruct op, l, r; cbn in Hx |- *; try discriminate; reflexivity).
   destruct (leaf_render x Hl) as [[[t p] er] [E _]]. rewrite E. cbn [bind].
   destruct er; [eexists; reflexivity|]. apply IH. exact Hxs.
 Qed.
@@ -225,7 +225,7 @@ Proof.
     apply rp_node_simple; discriminate.
   - (* Like *) destruct r as [| | | | | | c | |]; try discriminate. cbn in Hs. apply andb_true_iff in W. destruct W as [Wa Wc].
     rewrite render_param_eq, !ser_param_exp. leaf_step Wa.
-    assert (Lc : ParserShape.is_leaf c = true) by (destruct c as [cl co cr ? ?]; destruct co, cl, cr; cbn in Wc |- *; try discriminate; reflexivity).
+    assert (Lc : Shape.is_leaf c = true) by (destruct c as [cl co cr ? ?]; destruct co, cl, cr; cbn in Wc |- *; try discriminate; reflexivity).
     destruct (leaf_render _ Lc) as [[[rt rp] [er|]] [Ec [_ POc]]]; rewrite Ec; cbn [bind]; [eexists; reflexivity|].
     apply rp_node_like. apply POc. exact Wc.
   - (* Not *) destruct r; try discriminate. cbn in Hs. rewrite render_param_eq, ser_param_exp, ser_param_nil.
